@@ -47,15 +47,62 @@ def coq_list(items):
     return "[" + "; ".join(items) + "]"
 
 
+def borrowed_params(fdef):
+    """parameters a function only READS: never mutated in place, never re-bound, never returned / stored / copied as a bare name,
+    never handed on to another call as a bare argument except to len(): passing a mutable object for such a parameter cannot
+    create a second reference that outlives the call"""
+    out = set()
+    for a in fdef.args.args:
+        p = a.arg
+        ok = True
+        for n in ast.walk(fdef):
+            if isinstance(n, ast.Name) and n.id == p and isinstance(n.ctx, (ast.Store, ast.Del)):
+                ok = False
+            if isinstance(n, (ast.Assign, ast.AugAssign)):
+                for t in (n.targets if isinstance(n, ast.Assign) else [n.target]):
+                    if isinstance(t, ast.Subscript) and isinstance(t.value, ast.Name) and t.value.id == p:
+                        ok = False
+                    if isinstance(t, ast.Subscript) and isinstance(t.value, ast.Subscript) and isinstance(t.value.value, ast.Name) \
+                            and t.value.value.id == p:
+                        ok = False
+                v = n.value
+                for val in [v] + (list(v.elts) if isinstance(v, (ast.Tuple, ast.List)) else []):
+                    if isinstance(val, ast.Name) and val.id == p:
+                        ok = False
+            if isinstance(n, ast.Return) and n.value is not None:
+                for val in [n.value] + (list(n.value.elts) if isinstance(n.value, (ast.Tuple, ast.List)) else []):
+                    if isinstance(val, ast.Name) and val.id == p:
+                        ok = False
+            if isinstance(n, ast.Call):
+                fname = n.func.id if isinstance(n.func, ast.Name) else None
+                for val in list(n.args) + [k.value for k in n.keywords]:
+                    if isinstance(val, ast.Name) and val.id == p and fname != "len":
+                        ok = False
+                if isinstance(n.func, ast.Attribute) and isinstance(n.func.value, ast.Name) and n.func.value.id == p \
+                        and n.func.attr in ("append", "insert", "extend", "pop", "remove", "sort", "reverse", "clear", "fill", "resize"):
+                    ok = False
+            if isinstance(n, (ast.List, ast.Tuple, ast.Dict, ast.Set)) and isinstance(getattr(n, "ctx", ast.Load()), ast.Load):
+                for val in (n.elts if not isinstance(n, ast.Dict) else list(n.keys) + list(n.values)):
+                    if isinstance(val, ast.Name) and val.id == p:
+                        ok = False
+        if ok:
+            out.add(p)
+    return out
+
+
 class Fn:
     """translation context of one function"""
 
-    def __init__(self, node, sigs, method=False, floats=False, numpy=()):
+    def __init__(self, node, sigs, method=False, floats=False, numpy=(), graph=False, objects=(), coding=False):
         self.node = node
         self.sigs = sigs                      # name -> (params, {param: default ast})
         self.method = method                  # a method: `self.x` is the variable "self.x"; attributes read become parameters
         self.floats = floats                  # target MiniPyF.v (None tests, substring tests, count / replace / upper)
         self.numpy = set(numpy)               # names the module imports from numpy (where, argsort, sum, array, zeros)
+        self.graph = graph                    # target MiniPyG.v (dicts, break, 2-D stores, masks, astype, true division)
+        self.objects = set(objects)           # parameters that are objects whose methods are callees: p.m(x) is ECall "p.m"
+        self.coding = coding                  # target MiniPyH.v (conditional comprehensions, chained comparisons, any / all / copy)
+        self.borrowing = {}                   # callee name -> parameters it only reads (set by the generator)
         self.params = [a.arg for a in node.args.args]
         a = node.args
         if a.vararg or a.kwarg or a.kwonlyargs or a.posonlyargs or node.decorator_list:
@@ -120,12 +167,16 @@ class Fn:
         if isinstance(e, ast.Name):
             if e.id in self.monitors:
                 raise Refuse("monitor object used as a value")
+            if e.id in self.objects:
+                raise Refuse("object parameter %s used as a value" % e.id)
             if e.id not in self.assigned:
                 raise Refuse("free name %s" % e.id)
             return "(EVar %s)" % qs(e.id)
         if isinstance(e, ast.Attribute) and self.method and isinstance(e.value, ast.Name) and e.value.id == "self":
             return "(EVar %s)" % qs("self." + e.attr)
         if isinstance(e, ast.BinOp):
+            if self.graph and isinstance(e.op, ast.Div):
+                return "(EBin TrueDiv %s %s)" % (self.expr(e.left), self.expr(e.right))
             if type(e.op) not in BINOPS:
                 raise Refuse("operator %s" % type(e.op).__name__)
             return "(EBin %s %s %s)" % (BINOPS[type(e.op)], self.expr(e.left), self.expr(e.right))
@@ -145,6 +196,12 @@ class Fn:
                 out = "(%s %s %s)" % (c, p, out)
             return out
         if isinstance(e, ast.Compare):
+            if self.coding and len(e.ops) == 2 and all(type(o) in CMPOPS for o in e.ops) \
+                    and isinstance(e.comparators[0], (ast.Name, ast.Constant)):
+                # a < b < c  is  (a < b) and (b < c)  with b evaluated once: b is a name or a constant here
+                first = ast.Compare(left=e.left, ops=[e.ops[0]], comparators=[e.comparators[0]])
+                second = ast.Compare(left=e.comparators[0], ops=[e.ops[1]], comparators=[e.comparators[1]])
+                return "(EAnd %s %s)" % (self.expr(first), self.expr(second))
             l, r = e.left, e.comparators[0]
             if (self.floats or self.numpy) and len(e.ops) == 1:
                 if isinstance(e.ops[0], (ast.Is, ast.IsNot)) and isinstance(r, ast.Constant) and r.value is None:
@@ -160,6 +217,10 @@ class Fn:
                     and isinstance(e.ops[0], ast.Eq):
                 return "(ETypeIs %s %s)" % (self.expr(l.args[0]), TYPES[r.id])
             return "(ECmp %s %s %s)" % (CMPOPS[type(e.ops[0])], self.expr(l), self.expr(r))
+        if self.graph and isinstance(e, ast.Dict):
+            if any(k is None for k in e.keys):
+                raise Refuse("dict unpacking")
+            return "(EDict %s)" % coq_list(["(%s, %s)" % (self.expr(k), self.expr(v)) for k, v in zip(e.keys, e.values)])
         if isinstance(e, ast.IfExp):
             return "(EIf %s %s %s)" % (self.expr(e.test), self.expr(e.body), self.expr(e.orelse))
         if isinstance(e, ast.List):
@@ -170,7 +231,7 @@ class Fn:
             if len(e.generators) != 1:
                 raise Refuse("comprehension")
             g = e.generators[0]
-            if g.ifs or g.is_async or not isinstance(g.target, ast.Name):
+            if g.is_async or not isinstance(g.target, ast.Name) or (g.ifs and not (self.coding and len(g.ifs) == 1)):
                 raise Refuse("comprehension")
             if g.target.id in self.assigned - {g.target.id} or g.target.id in self.params:
                 raise Refuse("comprehension variable shadows a parameter")
@@ -178,7 +239,10 @@ class Fn:
             saved = set(self.assigned)
             self.assigned.add(g.target.id)
             body = self.expr(e.elt)
+            cond = self.expr(g.ifs[0]) if g.ifs else None
             self.assigned = saved | {g.target.id}
+            if cond is not None:
+                return "(ECompIf %s %s %s %s)" % (body, qs(g.target.id), self.expr(g.iter), cond)
             return "(EComp %s %s %s)" % (body, qs(g.target.id), self.expr(g.iter))
         if isinstance(e, ast.Subscript):
             s = e.slice
@@ -237,6 +301,20 @@ class Fn:
                 if name == "zeros" and not e.args and set(kws) == {"shape", "dtype"} and dtype_int \
                         and isinstance(kws["shape"], ast.Tuple) and len(kws["shape"].elts) == 1:
                     return "(EB1 BNpZeros %s)" % self.expr(kws["shape"].elts[0])
+                if self.graph:
+                    dtype_bool = "dtype" in kws and isinstance(kws["dtype"], ast.Name) and kws["dtype"].id == "bool" \
+                        and "bool" not in self.assigned
+                    shape = kws.get("shape")
+                    if name == "zeros" and not e.args and set(kws) == {"shape", "dtype"} and dtype_bool \
+                            and isinstance(shape, ast.Tuple) and len(shape.elts) == 1:
+                        return "(EB1 BNpZerosBool %s)" % self.expr(shape.elts[0])
+                    if name in ("ones", "zeros") and not e.args and set(kws) == {"shape", "dtype"} and dtype_int \
+                            and isinstance(shape, ast.Tuple) and len(shape.elts) == 2:
+                        return "(EB2 %s %s %s)" % ("BNpOnes2" if name == "ones" else "BNpZeros2", self.expr(shape.elts[0]),
+                                                   self.expr(shape.elts[1]))
+                    if name == "sum" and len(e.args) == 1 and set(kws) == {"axis"} and isinstance(kws["axis"], ast.Constant) \
+                            and kws["axis"].value == 1:
+                        return "(EB1 BNpSumAxis1 %s)" % self.expr(e.args[0])
                 raise Refuse("numpy call %s" % ast.unparse(e)[:60])
             if e.keywords:
                 raise Refuse("keyword arguments to %s" % name)
@@ -268,6 +346,16 @@ class Fn:
                 return "(EReplace %s %s %s)" % (self.expr(f.value), self.expr(e.args[0]), self.expr(e.args[1]))
             if f.attr == "upper" and len(e.args) == 0:
                 return "(EB1 BUpper %s)" % self.expr(f.value)
+        if self.graph and isinstance(f, ast.Attribute) and not e.keywords:
+            if f.attr == "astype" and len(e.args) == 1 and isinstance(e.args[0], ast.Name) and e.args[0].id in ("bool", "int") \
+                    and e.args[0].id not in self.assigned:
+                return "(EB1 %s %s)" % ("BAstypeBool" if e.args[0].id == "bool" else "BAstypeInt", self.expr(f.value))
+            if f.attr in ("tolist", "items", "keys") and not e.args:
+                return "(EB1 %s %s)" % ({"tolist": "BTolist", "items": "BItems", "keys": "BKeys"}[f.attr], self.expr(f.value))
+            if self.coding and f.attr in ("any", "all", "copy") and not e.args:
+                return "(EB1 %s %s)" % ({"any": "BAny", "all": "BAll", "copy": "BCopy"}[f.attr], self.expr(f.value))
+            if isinstance(f.value, ast.Name) and f.value.id in self.objects:
+                return "(ECall %s %s)" % (qs(f.value.id + "." + f.attr), coq_list([self.expr(a) for a in e.args]))
         if self.numpy and isinstance(f, ast.Attribute) and not e.keywords and len(e.args) == 1 and f.attr == "index":
             return "(EB2 BIndexOf %s %s)" % (self.expr(f.value), self.expr(e.args[0]))
         if isinstance(f, ast.Attribute) and not e.keywords and len(e.args) == 1:
@@ -276,6 +364,32 @@ class Fn:
             if f.attr == "join":
                 return "(EB2 BJoin %s %s)" % (self.expr(f.value), self.expr(e.args[0]))
         raise Refuse("call %s" % ast.unparse(e)[:60])
+
+    def has_break(self, stmts):
+        """a break that belongs to THIS loop (not to a loop nested in its body)"""
+        for st in stmts:
+            if isinstance(st, ast.Break):
+                if not self.graph:
+                    raise Refuse("break")
+                return True
+            if isinstance(st, ast.If) and (self.has_break(st.body) or self.has_break(st.orelse)):
+                return True
+            if isinstance(st, (ast.With, ast.Try)):
+                raise Refuse(type(st).__name__)
+        return False
+
+    def printable(self, e):
+        """an argument of print() that cannot raise and has no effect: literals, names, str()/round()/len()/sum() and + * / of those"""
+        if isinstance(e, ast.Constant):
+            return True
+        if isinstance(e, ast.Name):
+            return e.id in self.assigned and e.id not in self.monitors and e.id not in self.objects
+        if isinstance(e, ast.BinOp) and isinstance(e.op, (ast.Add, ast.Mult, ast.Div)):
+            return self.printable(e.left) and self.printable(e.right)
+        if isinstance(e, ast.Call) and isinstance(e.func, ast.Name) and e.func.id in ("str", "round", "len", "sum") \
+                and not e.keywords and e.func.id not in self.assigned:
+            return all(self.printable(a) for a in e.args)
+        return False
 
     def pure(self, e):
         """no call of another module function inside (so evaluation order of the arguments cannot matter)"""
@@ -294,6 +408,12 @@ class Fn:
         if self.numpy and isinstance(t, ast.Tuple) and len(t.elts) == 2 and isinstance(t.elts[0], ast.Name) \
                 and isinstance(t.elts[1], ast.Tuple) and all(isinstance(x, ast.Name) for x in t.elts[1].elts):
             return "(TPair %s %s)" % (qs(t.elts[0].id), coq_list([qs(x.id) for x in t.elts[1].elts]))
+        if self.graph and isinstance(t, ast.Subscript) and isinstance(t.value, ast.Name) and isinstance(t.slice, ast.Tuple) \
+                and len(t.slice.elts) == 2:
+            return "(TIndex2 %s %s %s)" % (qs(t.value.id), self.expr(t.slice.elts[0]), self.expr(t.slice.elts[1]))
+        if self.graph and isinstance(t, ast.Subscript) and isinstance(t.value, ast.Subscript) and isinstance(t.value.value, ast.Name) \
+                and not isinstance(t.slice, (ast.Slice, ast.Tuple)) and not isinstance(t.value.slice, (ast.Slice, ast.Tuple)):
+            return "(TIndex2 %s %s %s)" % (qs(t.value.value.id), self.expr(t.value.slice), self.expr(t.slice))
         if isinstance(t, ast.Subscript) and isinstance(t.value, ast.Name) and not isinstance(t.slice, ast.Slice):
             return "(TIndex %s %s)" % (qs(t.value.id), self.expr(t.slice))
         raise Refuse("assignment target %s" % ast.unparse(t)[:40])
@@ -320,6 +440,13 @@ class Fn:
                 return None          # the base class constructor with constant arguments (it stores a display name): not modelled
             if isinstance(v, ast.Call) and isinstance(v.func, ast.Name) and v.func.id in self.monitors and not v.keywords:
                 return "(SExpr (ETuple %s))" % coq_list([self.expr(a) for a in v.args])
+            if self.graph and isinstance(v, ast.Call) and isinstance(v.func, ast.Name) and v.func.id in self.monitors \
+                    and all(k.arg is not None for k in v.keywords):
+                # progress call with keyword arguments: positional then keyword values are evaluated in source order and dropped
+                return "(SExpr (ETuple %s))" % coq_list([self.expr(a) for a in v.args] + [self.expr(k.value) for k in v.keywords])
+            if self.graph and isinstance(v, ast.Call) and isinstance(v.func, ast.Name) and v.func.id == "print" \
+                    and "print" not in self.assigned and not v.keywords and all(self.printable(a) for a in v.args):
+                return "SSkip"           # console output is not modelled; the arguments are total expressions (checked)
             if isinstance(v, ast.Call) and isinstance(v.func, ast.Attribute) and isinstance(v.func.value, ast.Name) \
                     and not v.keywords and v.func.value.id in self.assigned:
                 x = v.func.value.id
@@ -344,11 +471,12 @@ class Fn:
             if s.orelse:
                 raise Refuse("for/else")
             t = s.target
-            return "(SFor %s %s\n %s)" % (self.target(t), self.expr(s.iter), self.block(s.body))
+            return "(%s %s %s\n %s)" % ("SForB" if self.has_break(s.body) else "SFor", self.target(t), self.expr(s.iter),
+                                        self.block(s.body))
         if isinstance(s, ast.While):
             if s.orelse:
                 raise Refuse("while/else")
-            return "(SWhile %s\n %s)" % (self.expr(s.test), self.block(s.body))
+            return "(%s %s\n %s)" % ("SWhileB" if self.has_break(s.body) else "SWhile", self.expr(s.test), self.block(s.body))
         if isinstance(s, ast.Return):
             return "(SReturn %s)" % ("ENone" if s.value is None else self.expr(s.value))
         if isinstance(s, ast.Raise):
@@ -358,6 +486,8 @@ class Fn:
             raise Refuse("raise")
         if isinstance(s, ast.Pass):
             return "SSkip"
+        if self.graph and isinstance(s, ast.Break):
+            return "SBreak"
         raise Refuse("statement %s" % type(s).__name__)
 
     # ---------------------------------------------------------------- aliasing side condition
@@ -372,19 +502,102 @@ class Fn:
                     for t in (x.targets if isinstance(x, ast.Assign) else [x.target]):
                         if isinstance(t, ast.Subscript) and isinstance(t.value, ast.Name):
                             out.add(t.value.id)
+                        if isinstance(t, ast.Subscript) and isinstance(t.value, ast.Subscript) and isinstance(t.value.value, ast.Name):
+                            out.add(t.value.value.id)
                 if isinstance(x, ast.Call) and isinstance(x.func, ast.Attribute) and isinstance(x.func.value, ast.Name) \
                         and x.func.attr in ("append", "insert", "extend", "pop", "remove", "sort", "reverse", "clear"):
                     out.add(x.func.value.id)
             return out
         mutated = mutations(node)
+        # x += e extends a list IN PLACE: a mutation when x is ever bound to a list
+        listy = set()
+        for x in ast.walk(node):
+            if isinstance(x, ast.Assign):
+                tv = []
+                t0 = x.targets[0]
+                if isinstance(t0, ast.Name):
+                    tv = [(t0, x.value)]
+                elif isinstance(t0, ast.Tuple) and isinstance(x.value, ast.Tuple) and len(t0.elts) == len(x.value.elts):
+                    tv = list(zip(t0.elts, x.value.elts))
+                for a, b in tv:
+                    if isinstance(a, ast.Name) and (isinstance(b, (ast.List, ast.ListComp))
+                                                    or (isinstance(b, ast.Call) and isinstance(b.func, ast.Name) and b.func.id == "list")):
+                        listy.add(a.id)
+        for x in ast.walk(node):
+            if isinstance(x, ast.AugAssign) and isinstance(x.target, ast.Name) and x.target.id in listy:
+                mutated.add(x.target.id)
+        # an alias  y = x  of a mutated object x is harmless in one shape: both statements are direct children of one loop body,
+        # x is freshly re-bound earlier in that body ([] / {} / a display), every in-place mutation of x in the whole function sits
+        # between the re-binding and the alias, and y is never mutated: each iteration hands a finished object over to y
+        def sites(root, nm):
+            c = 0
+            for z in ast.walk(root):
+                if isinstance(z, ast.AugAssign) and isinstance(z.target, ast.Name) and z.target.id == nm and nm in listy:
+                    c += 1
+                if isinstance(z, ast.Call) and isinstance(z.func, ast.Attribute) and isinstance(z.func.value, ast.Name) \
+                        and z.func.value.id == nm and z.func.attr in ("append", "insert", "extend", "pop", "remove", "sort", "reverse", "clear"):
+                    c += 1
+                if isinstance(z, (ast.Assign, ast.AugAssign)):
+                    for t in (z.targets if isinstance(z, ast.Assign) else [z.target]):
+                        if isinstance(t, ast.Subscript) and isinstance(t.value, ast.Name) and t.value.id == nm:
+                            c += 1
+                        if isinstance(t, ast.Subscript) and isinstance(t.value, ast.Subscript) and isinstance(t.value.value, ast.Name) \
+                                and t.value.value.id == nm:
+                            c += 1
+            return c
+
+        def rebinds_fresh(st, nm):
+            if not isinstance(st, ast.Assign):
+                return False
+            t0, v0 = st.targets[0], st.value
+            pairs0 = [(t0, v0)] if isinstance(t0, ast.Name) else \
+                (list(zip(t0.elts, v0.elts)) if isinstance(t0, ast.Tuple) and isinstance(v0, ast.Tuple) and len(t0.elts) == len(v0.elts) else [])
+            def brand_new(b):
+                if isinstance(b, (ast.List, ast.Dict)) and not getattr(b, "elts", None) and not getattr(b, "keys", None):
+                    return True
+                if isinstance(b, ast.Call) and isinstance(b.func, ast.Attribute) and b.func.attr == "copy" and not b.args:
+                    return True
+                return isinstance(b, ast.Call) and isinstance(b.func, ast.Name) and b.func.id in ("zeros", "ones") \
+                    and b.func.id in self.numpy
+            return any(isinstance(a, ast.Name) and a.id == nm and brand_new(b) for a, b in pairs0)
+        harmless_alias, cands = set(), {}
+        blocks = [node.body]
+        for z in ast.walk(node):
+            if isinstance(z, (ast.For, ast.While, ast.If)):
+                blocks.append(z.body)
+                if z.orelse:
+                    blocks.append(z.orelse)
+        for blk in blocks:
+            for ai, st in enumerate(blk):
+                # y = x   or   d[k] = x   with a bare name x on the right
+                if isinstance(st, ast.Assign) and isinstance(st.value, ast.Name) and \
+                        (isinstance(st.targets[0], ast.Name) or (isinstance(st.targets[0], ast.Subscript)
+                                                                  and isinstance(st.targets[0].value, ast.Name))):
+                    xname = st.value.id
+                    yname = st.targets[0].id if isinstance(st.targets[0], ast.Name) else None
+                    js = [k for k in range(ai) if rebinds_fresh(blk[k], xname)]
+                    if not js or (yname is not None and yname in mutated):
+                        continue
+                    jj = js[-1]
+                    cands.setdefault(xname, []).append((st, sum(sites(b2, xname) for b2 in blk[jj + 1:ai])))
+        for xname, lst in cands.items():
+            # the spans (one per loop) together hold every in-place mutation of x
+            if sites(node, xname) == sum(c for _, c in lst):
+                harmless_alias.update(id(st) for st, _ in lst)
 
         def fresh(v):
-            if isinstance(v, (ast.List, ast.ListComp, ast.BinOp, ast.Constant)):
+            if isinstance(v, (ast.List, ast.ListComp, ast.BinOp, ast.Constant, ast.Dict)):
                 return True
             if isinstance(v, ast.Call) and isinstance(v.func, ast.Name) and v.func.id in ("list", "map", "range") \
                     and v.func.id not in self.assigned:
                 return True
-            if isinstance(v, ast.Call) and isinstance(v.func, ast.Name) and v.func.id in ("array", "zeros") and v.func.id in self.numpy:
+            if isinstance(v, ast.Call) and isinstance(v.func, ast.Name) and v.func.id in ("array", "zeros", "ones") and v.func.id in self.numpy:
+                return True
+            if isinstance(v, ast.UnaryOp) and isinstance(v.op, ast.USub):
+                return True                      # arithmetic always builds a new object
+            if isinstance(v, ast.Compare):
+                return True                      # a comparison builds a new (boolean) object
+            if isinstance(v, ast.Call) and isinstance(v.func, ast.Attribute) and v.func.attr == "copy" and not v.args:
                 return True
             if isinstance(v, ast.Call) and isinstance(v.func, ast.Attribute) and v.func.attr == "join":
                 return True
@@ -408,15 +621,17 @@ class Fn:
                 # a mutated name as a bare right-hand side or inside a display creates a second reference
                 vals = [v] + (list(v.elts) if isinstance(v, (ast.Tuple, ast.List)) else [])
                 for val in vals:
-                    if isinstance(val, ast.Name) and val.id in mutated:
+                    if isinstance(val, ast.Name) and val.id in mutated and id(n) not in harmless_alias:
                         raise Refuse("aliasing: mutated name %s copied by reference" % val.id)
             if isinstance(n, (ast.List, ast.Tuple)) and isinstance(getattr(n, "ctx", None), ast.Load) and id(n) not in returned:
                 for val in n.elts:
                     if isinstance(val, ast.Name) and val.id in mutated:
                         raise Refuse("aliasing: mutated name %s inside a display" % val.id)
             if isinstance(n, ast.Call) and isinstance(n.func, ast.Name) and n.func.id in self.sigs:
-                for val in list(n.args) + [k.value for k in n.keywords]:
-                    if isinstance(val, ast.Name) and val.id in mutated:
+                cparams = self.sigs[n.func.id][0]
+                bound = list(zip(cparams, n.args)) + [(k.arg, k.value) for k in n.keywords]
+                for pname, val in bound:
+                    if isinstance(val, ast.Name) and val.id in mutated and pname not in self.borrowing.get(n.func.id, ()):
                         raise Refuse("aliasing: mutated name %s passed to %s" % (val.id, n.func.id))
             if isinstance(n, ast.Call) and isinstance(n.func, ast.Attribute) and n.func.attr in ("append", "insert"):
                 for val in n.args:
@@ -556,6 +771,134 @@ def generate_coder(repo, out_path):
     return CODER_FUNCS
 
 
+GRAPH_FUNCS = {"dsw/graphized.py": ["obtain_formers", "obtain_latters", "get_complete_accessor", "obtain_vertices",
+                                    "obtain_leaf_vertices", "accessor_to_latter_map", "remove_useless", "latter_map_to_accessor"],
+               "dsw/spiderweb.py": ["connect_valid_graph", "find_vertices"]}
+GRAPH_FUNC_NAMES = [f for fs in GRAPH_FUNCS.values() for f in fs]
+
+
+def generate_graph(repo, out_path):
+    """graph representations and the two simple graph builders as MiniPyG terms.  Callees outside the list (number_to_dna of
+    dsw/operation.py, the valid() method of the filter object) are left to the callee environment."""
+    parts = ["(* GENERATED by harness/translate_minipy.py from %s/dsw/graphized.py and spiderweb.py -- do not edit *)\n"
+             "From DSW Require Import MiniPyG.\nOpen Scope Z_scope.\n" % repo]
+    trees, defs, sigs, numpy_of = {}, {}, {}, {}
+    for rel in GRAPH_FUNCS:
+        tree = ast.parse(open(os.path.join(repo, rel)).read())
+        trees[rel] = tree
+        numpy_names, other = set(), set()
+        for n in tree.body:
+            if isinstance(n, ast.ImportFrom):
+                for a in n.names:
+                    if a.asname is not None:
+                        raise Refuse("import ... as")
+                    (numpy_names if n.module == "numpy" else other).add(a.name)
+            elif isinstance(n, ast.Import):
+                raise Refuse("plain import at module level")
+            elif isinstance(n, (ast.Assign, ast.AugAssign, ast.AnnAssign)):
+                raise Refuse("module-level assignment")
+        numpy_of[rel] = numpy_names
+        names = [n.name for n in tree.body if isinstance(n, (ast.FunctionDef, ast.ClassDef))]
+        for f in GRAPH_FUNCS[rel]:
+            if names.count(f) != 1:
+                raise Refuse("%s defined %d times" % (f, names.count(f)))
+            if f in numpy_names:
+                raise Refuse("%s shadows a numpy name" % f)
+        for n in tree.body:
+            if isinstance(n, ast.FunctionDef) and n.name in GRAPH_FUNCS[rel]:
+                defs[n.name] = (rel, n)
+    # spiderweb.py must take the graphized functions it calls from dsw.graphized
+    for n in trees["dsw/spiderweb.py"].body:
+        if isinstance(n, ast.ImportFrom) and n.module == "dsw.graphized":
+            imported = {a.name for a in n.names}
+            break
+    else:
+        raise Refuse("spiderweb.py does not import from dsw.graphized")
+    # signatures: the generated functions + number_to_dna (dsw/operation.py), which find_vertices calls
+    op_tree = ast.parse(open(os.path.join(repo, "dsw", "operation.py")).read())
+    extra = {n.name: n for n in op_tree.body if isinstance(n, ast.FunctionDef) and n.name == "number_to_dna"}
+    for f, d in list((k, v[1]) for k, v in defs.items()) + list(extra.items()):
+        a = d.args
+        params = [x.arg for x in a.args]
+        dflt = dict(zip(params[len(params) - len(a.defaults):], a.defaults))
+        for v in dflt.values():
+            if not isinstance(v, ast.Constant):
+                raise Refuse("non-constant default in %s" % f)
+        sigs[f] = (params, dflt)
+    order = GRAPH_FUNC_NAMES
+    for f in order:
+        rel, d = defs[f]
+        used = {"where", "sum", "array", "zeros", "ones"} & numpy_of[rel]
+        # a spiderweb function may only call graphized functions it imports
+        visible = dict((k, v) for k, v in sigs.items()
+                       if rel == "dsw/graphized.py" and (k in GRAPH_FUNCS[rel])
+                       or rel == "dsw/spiderweb.py" and (k in GRAPH_FUNCS[rel] or k in imported or k == "number_to_dna"))
+        objects = ["bio_filter"] if f == "find_vertices" else []
+        parts.append(Fn(d, visible, numpy=used, graph=True, objects=objects).translate())
+    parts.append("Definition graph_module : module :=\n %s.\n"
+                 % coq_list(["(%s, %s_def)" % (qs(f), f) for f in reversed(order)]))
+    open(out_path, "w").write("\n".join(parts))
+    return order
+
+
+CODING_FUNCS = ["connect_coding_graph"]
+
+
+def generate_coding(repo, out_path):
+    """connect_coding_graph (dsw/spiderweb.py) as a MiniPyH term, in front of MiniPyH copies of the three graphized functions it
+    calls (obtain_vertices, obtain_latters, obtain_formers)."""
+    sp = ast.parse(open(os.path.join(repo, "dsw", "spiderweb.py")).read())
+    gr = ast.parse(open(os.path.join(repo, "dsw", "graphized.py")).read())
+    numpy_of, imported = {}, set()
+    for rel, tree in (("s", sp), ("g", gr)):
+        names = set()
+        for n in tree.body:
+            if isinstance(n, ast.ImportFrom):
+                for a in n.names:
+                    if a.asname is not None:
+                        raise Refuse("import ... as")
+                    if n.module == "numpy":
+                        names.add(a.name)
+                    if rel == "s" and n.module == "dsw.graphized":
+                        imported.add(a.name)
+            elif isinstance(n, ast.Import):
+                raise Refuse("plain import at module level")
+            elif isinstance(n, (ast.Assign, ast.AugAssign, ast.AnnAssign)):
+                raise Refuse("module-level assignment")
+        numpy_of[rel] = names
+    callees = ["obtain_vertices", "obtain_latters", "obtain_formers"]
+    for c in callees:
+        if c not in imported:
+            raise Refuse("spiderweb.py does not import %s from dsw.graphized" % c)
+    sdefs = [n for n in sp.body if isinstance(n, ast.FunctionDef) and n.name == "connect_coding_graph"]
+    gdefs = {n.name: n for n in gr.body if isinstance(n, ast.FunctionDef) and n.name in callees}
+    if len(sdefs) != 1 or len(gdefs) != 3 or any([n.name for n in gr.body if isinstance(n, ast.FunctionDef)].count(c) != 1 for c in callees):
+        raise Refuse("function definitions")
+    if any(isinstance(n, (ast.FunctionDef, ast.ClassDef)) and n.name in callees for n in sp.body):
+        raise Refuse("spiderweb.py re-defines a graphized function")
+    sigs = {}
+    for d in sdefs + list(gdefs.values()):
+        a = d.args
+        params = [x.arg for x in a.args]
+        dflt = dict(zip(params[len(params) - len(a.defaults):], a.defaults))
+        if any(not isinstance(v, ast.Constant) for v in dflt.values()):
+            raise Refuse("non-constant default")
+        sigs[d.name] = (params, dflt)
+    parts = ["(* GENERATED by harness/translate_minipy.py from %s/dsw/spiderweb.py and graphized.py -- do not edit *)\n"
+             "From DSW Require Import MiniPyH.\nOpen Scope Z_scope.\n" % repo]
+    used_g = {"where", "sum", "array", "zeros", "ones"} & numpy_of["g"]
+    used_s = {"where", "sum", "array", "zeros", "ones"} & numpy_of["s"]
+    for c in reversed(callees):
+        parts.append(Fn(gdefs[c], {k: v for k, v in sigs.items() if k in callees}, numpy=used_g, graph=True, coding=True).translate())
+    top = Fn(sdefs[0], sigs, numpy=used_s, graph=True, coding=True)
+    top.borrowing = {c: borrowed_params(gdefs[c]) for c in callees}
+    parts.append(top.translate())
+    parts.append("Definition coding_module : module :=\n %s.\n"
+                 % coq_list(["(%s, %s_def)" % (qs(f), f) for f in ["connect_coding_graph"] + callees]))
+    open(out_path, "w").write("\n".join(parts))
+    return CODING_FUNCS
+
+
 BIOFILTER_FUNCS = ["LocalBioFilter.__init__", "LocalBioFilter.valid"]
 
 
@@ -605,6 +948,12 @@ if __name__ == "__main__":
     import sys
     if sys.argv[1:2] == ["biofilter"]:
         generate_biofilter(sys.argv[2], sys.argv[3])
+        sys.exit(0)
+    if sys.argv[1:2] == ["coding"]:
+        generate_coding(sys.argv[2], sys.argv[3])
+        sys.exit(0)
+    if sys.argv[1:2] == ["graph"]:
+        generate_graph(sys.argv[2], sys.argv[3])
         sys.exit(0)
     if sys.argv[1:2] == ["coder"]:
         generate_coder(sys.argv[2], sys.argv[3])
